@@ -18,15 +18,33 @@ def log_nf(term, vname, closed_form=True):
     """normal form of a term in v with L = ln v; sel conditions of the quartic tail resolved to the closed form"""
     assume = {}
     if closed_form:
-        for t in subterms(term):
-            if t[0] == 'sel' and t[1][0] in ('fcmp', 'and'):
-                stack = [t[1]]
-                while stack:
-                    c = stack.pop()
-                    if c[0] == 'and':
-                        stack += [c[1], c[2]]
-                    elif c[0] == 'fcmp':
-                        assume[c] = False
+        # wherever the value branches between the series and the closed form of the tail (however the branch is written),
+        # take the closed form: the arm that calls exp
+        memo = {}
+
+        def has_exp(t):
+            return any(x[0] == 'fcall' and x[1] == 'exp' for x in subterms(t))
+
+        def pick(t):
+            if not isinstance(t, tuple) or not t:
+                return t
+            r = memo.get(t)
+            if r is not None:
+                return r
+            if t[0] == 'sel':
+                a_, b_ = pick(t[2]), pick(t[3])
+                ha, hb = has_exp(a_), has_exp(b_)
+                if ha and not hb:
+                    r = a_
+                elif hb and not ha:
+                    r = b_
+                else:
+                    r = ('sel', t[1], a_, b_)
+            else:
+                r = (t[0],) + tuple(pick(y) if isinstance(y, tuple) else y for y in t[1:])
+            memo[t] = r
+            return r
+        term = pick(term)
     nf = NF(assume)
     rf = nf(term)
     v = sym(vname)
